@@ -45,6 +45,8 @@ ECC_SUMMARY = {
     E + "keys.VerifyingKey.to_der": set(), E + "keys.SigningKey.to_der": set(), E + "keys.SigningKey.generate": set(),
     E + "ecdh.ECDH.__init__": set(), E + "ecdh.ECDH.load_private_key_der": set(), E + "ecdh.ECDH.load_received_public_key_der": set(),
     E + "ecdh.ECDH.generate_sharedsecret_bytes": set(),
+    # the bodies of the two *_der loaders written out: from_der(<own encoding>) (see reencode_total) + load_* of keys that are P-256 by construction
+    E + "ecdh.ECDH.load_private_key": set(), E + "ecdh.ECDH.load_received_public_key": set(),
 }
 
 
@@ -65,7 +67,9 @@ def make_analysis(prog) -> ExcAnalysis:
         return False
 
     scope = lambda c: c.module.name.startswith("bec2format") or c.module.name == "register_crypto_plugin"
-    return ExcAnalysis(prog, dispatch_scope=scope, inline=inline, summaries=summ)
+    an = ExcAnalysis(prog, dispatch_scope=scope, inline=inline, summaries=summ)
+    an.reencode_total = {E + "keys.VerifyingKey.from_der", E + "keys.SigningKey.from_der"}
+    return an
 
 
 # ------------------------------------------------------------------------------------------------ table-backed discharges
@@ -220,7 +224,7 @@ def termination_rule(prog, chk, pid, an: ExcAnalysis):
         ok, why = False, ""
         if lr.fn.module.name.startswith("register_crypto_plugin.pyaes"):
             # feeder loop: consumes can_consume > 0 bytes of a finite buffer per iteration or breaks
-            brk = [e for e in body if e.kind == "guard" and e.d.get("term") == "break"]
+            brk = [e for e in body if e.kind == "guard" and e.d.get("term") in ("break", "return")]  # leaving the loop or the function when nothing can be consumed
             shrink = any(nm == "self._buffer" for nm in lr.next)
             ok = bool(brk) and shrink
             why = "buffer loop does not shrink its buffer or break when nothing can be consumed"
@@ -297,6 +301,35 @@ def _reads_before(stmts, idx, rdr_name, fold):
     return total
 
 
+def _pinned_home(prog, lib, fi) -> str:
+    """the function a site is reported under: a function that did not exist on the pinned tree (an extracted helper, a nested function) is attributed to the
+    pinned function it was carved out of -- its enclosing function, or its only caller -- so that a finding keeps its identity when code is moved into a helper"""
+    from bfsa.symexec import _is_new_function
+
+    seen = set()
+    while fi is not None and fi.qualname not in seen:
+        seen.add(fi.qualname)
+        if fi.parent is not None:
+            fi = fi.parent
+            continue
+        if not _is_new_function(fi):
+            return fi.qualname
+        callers = []
+        for q, f in lib.items():
+            if f is fi:
+                continue
+            for c in ast.walk(f.node):
+                if isinstance(c, ast.Call):
+                    nm = c.func.attr if isinstance(c.func, ast.Attribute) else getattr(c.func, "id", None)
+                    if nm == fi.name:
+                        callers.append(f)
+                        break
+        if len(callers) != 1:
+            return fi.qualname
+        fi = callers[0]
+    return fi.qualname if fi is not None else "?"
+
+
 def mac_input_rule(prog, chk, pid, an: ExcAnalysis):
     """the registered cipher's mac() cannot take an empty input (the plug-in's feeder raises a bare Exception): every cmac() call a parser reaches must be handed data that is provably
     non-empty.  Accepted proof: the data is X[:-K] and the call is preceded, in the same straight-line block, by exact reads of more than K bytes from BytesReader(X)."""
@@ -371,7 +404,7 @@ def mac_input_rule(prog, chk, pid, an: ExcAnalysis):
                                             got = max(got, _reads_before(blk2[j + 1:idx2], idx2 - j - 1, s2.targets[0].id, fold))
                                 ok = got > -k
                                 why = "only %d byte(s) are certainly read from %s before its MAC is computed over %s: for shorter input the MAC input is empty and the cipher raises a bare Exception" % (got, data.value.id, ast.unparse(data))
-                        (chk.ok if ok else chk.fail)(P("mac-input-nonempty"), fi.qualname, "cmac(%s, ...)" % ast.unparse(c.args[0]), "%s:%d" % (fi.file, c.lineno),
+                        (chk.ok if ok else chk.fail)(P("mac-input-nonempty"), _pinned_home(prog, lib, fi), "cmac(%s, ...)" % ast.unparse(c.args[0]), "%s:%d" % (fi.file, c.lineno),
                                                      "the MAC input is X[:-K] after more than K bytes of X were read: it cannot be empty" if ok else why)
     if n_sites < 2:
         raise AnalysisError("expected at least the two cmac() call sites of the BF3 reader, found %d" % n_sites)
